@@ -7,8 +7,11 @@ import (
 	"fmt"
 	"io"
 	"math/rand/v2"
+	"net"
+	"os"
 	"runtime"
 	"sync"
+	"syscall"
 	"time"
 
 	"github.com/scrapli/scrapligo/transport"
@@ -45,9 +48,13 @@ type NetPlan struct {
 
 // Faults is the fault plan of one transport.
 type Faults struct {
-	StallAt      int    `json:"stall_at"`     // -1 none; bytes with offset >= StallAt are withheld until Resume
-	EOFAt        int    `json:"eof_at"`       // -1 none; once this many bytes were delivered Read returns io.EOF
-	ErrAt        int    `json:"err_at"`       // -1 none; same with a persistent non-EOF error
+	StallAt int `json:"stall_at"` // -1 none; bytes with offset >= StallAt are withheld until Resume
+	EOFAt   int `json:"eof_at"`   // -1 none; once this many bytes were delivered Read returns io.EOF
+	ErrAt   int `json:"err_at"`   // -1 none; same with a persistent non-EOF error
+	// ErrKind selects the persistent read error: "" = a plain I/O error, "reset" = ECONNRESET,
+	// "timedout" = ETIMEDOUT (the kernel's report for a dead peer; it is a net.Error whose
+	// Timeout() is true)
+	ErrKind      string `json:"err_kind,omitempty"`
 	WriteErrAt   int    `json:"write_err_at"` // -1 none; the Write with this index and all later ones fail
 	CloseMode    string `json:"close_mode"`   // eof | err | stuck: what a blocked/later Read does once Close was called
 	DropAfterEOF bool   `json:"drop_after_loss"`
@@ -358,6 +365,12 @@ func (t *T) Read(n int) ([]byte, error) {
 		}
 		if t.F.ErrAt >= 0 && (lossAt < 0 || t.F.ErrAt < lossAt) {
 			lossAt, lossErr = t.F.ErrAt, ErrSimIO
+			switch t.F.ErrKind {
+			case "reset":
+				lossErr = &net.OpError{Op: "read", Net: "tcp", Err: os.NewSyscallError("read", syscall.ECONNRESET)}
+			case "timedout":
+				lossErr = &net.OpError{Op: "read", Net: "tcp", Err: os.NewSyscallError("read", syscall.ETIMEDOUT)}
+			}
 		}
 		if lossAt >= 0 {
 			if t.delivered >= lossAt {
